@@ -8,6 +8,90 @@ COMMON = ["the harness module replaces github.com/openconfig/gnmi with /repo's w
           "rapid v1.3.0 generators; every random choice is a function of VERIF_SEED"]
 
 CHECKS = {
+    "C16": dict(
+        engine="connprop",
+        technique=("model-based property testing (rapid) with the schedule as generated data: every case runs in a synctest bubble, one step at a time to quiescence, "
+                   "with a scripted dial function and the gates conn.dial.result / conn.wait; oracle = per-address generation model (pending dial, sharers, holders) "
+                   "compared with returned connections, errors, dial-function invocations and connectivity state after every step"),
+        level_text=("Generated scenarios (1-3 addresses, 2-8 requester threads, 1-42 steps: Connection() calls with background / own / already cancelled contexts and an optional "
+                    "unknown dialer name, releases, repeated releases, calls of the done func returned with an error, dial function told to return a fresh idle grpc.NewClient "
+                    "connection or an error (at once or in a later step), context cancellations, parks and releases at conn.wait and conn.dial.result) are executed against the real "
+                    "connection.Manager built with NewManagerCustom. After every step, with every goroutine of the bubble durably blocked: a request (other than one refused for its "
+                    "already cancelled context or naming the unknown dialer) invokes the dial function iff its address has neither a pending dial nor a connection with unreleased "
+                    "holders (never a second invocation while one is in flight or unpublished, always a fresh one after the last release or after a failed/cancelled dial); every request that joined a dial returns exactly its outcome (the same *grpc.ClientConn with nil error, "
+                    "or nil with an error; never (nil, nil); not before the dial finished; not blocked after it finished); a connection is not SHUTDOWN while a sharer is still inside "
+                    "Connection() or holds it unreleased, and is SHUTDOWN right after the step in which the last of them released it; double releases and done funcs of failed requests "
+                    "return without panic and change none of this, in particular for a successor generation registered under the same address. A fixed epilogue opens every gate, lets "
+                    "every parked dial succeed and releases every handle, so a leaked reference shows as a connection that is never closed. Bounded random exploration, not a proof."),
+        level_note=("trusts the ~150-line generation model in connprop/run.go; 'closed exactly once' is decided as: open while held, SHUTDOWN at zero, forgotten afterwards, no later release "
+                    "touches the successor (a second Close of the same *grpc.ClientConn is not observable through the exported API); calls are serialised by quiescence, the only "
+                    "intra-call windows explored are the two gates (caller registered but not yet waiting; dial function returned but result unpublished); the scripted dial function "
+                    "honours cancellation of the context it was given; a requester whose own context is cancelled may return (nil, error) at any time without being counted as a holder "
+                    "(the documentation is silent; the real code instead lets it share the result, which is also accepted); the unknown dialer name is only used for an address with "
+                    "nothing registered; a panic on the dial goroutine started by the code under test cannot be recovered and is reported by the driver as a crashed process with the "
+                    "scenario written beforehand"),
+        rule=("cases are scenarios (addresses, threads, step list); non-trivial = during the generated steps (epilogue excluded) some connection had >=2 holders that had returned from "
+              "Connection() and not yet released it AND >=1 invocation of the dial function ended with an error or was cancelled and that failure was published; "
+              "distinct = distinct hash of the scenario"),
+        assumptions=COMMON + [SYNCTEST_ASSUMPTION,
+                              "connections are idle grpc.NewClient(\"passthrough:///<addr>\") clients with insecure credentials: no network; closed is observed as connectivity.Shutdown",
+                              "one dialer (DEFAULT) per manager plus an unregistered dialer name; dial functions return either a non-nil connection or a non-nil error",
+                              "every done func is called from one goroutine at a time (releases are separate steps); free-running races between Connection() and done() are serialised by "
+                              "the manager's mutex and are explored only through the two gates"],
+        parts=[
+            dict(name="random", run="TestC16Random", checks=dict(quick=3000, thorough=30000), shards=dict(quick=1, thorough=16)),
+        ],
+    ),
+    "C04": dict(
+        engine="subprop",
+        technique="property testing (rapid) with the schedule as generated data: synctest virtual time + quiescence + named gates; oracle = replay of responses vs cache, sync discipline, no invention",
+        level_text=("Generated scenarios (writer history x 1-3 STREAM subscriptions x gate schedule) run against the real cache + subscribe.Server in a synctest bubble over in-memory streams: "
+                    "subscriptions park at pre-register / registered / walk.begin / walk.end, writers park between tree write and feed, sends are granted credit by the scenario; the harness waits for "
+                    "quiescence after every step. At check/drain points the replay of each subscriber's responses restricted to its query-matching paths must equal the cache's matching content; "
+                    "exactly one sync, first for updates_only, every leaf of the start-time snapshot sent before it unless deleted meanwhile; every update response equals a submitted write; "
+                    "the RPC ends only when the scenario ends it. Bounded exploration of the named windows; other preemption points are not explored."),
+        level_note=("in-memory pb.GNMI_SubscribeServer double (context cancellation as gRPC, peer in context); one writer per target as in the collector; a Remove is not scheduled while a single-target "
+                    "subscription to that target sits between its target check and its registration; updates_only subscriptions are owed only leaves changed after registration"),
+        rule=("cases are scenarios of 6-40 steps; non-trivial = a convergence check was evaluated AND (a writer step ran while a STREAM subscription was parked between its start and its sync, "
+              "or a writer was parked between tree write and feed while a subscription's walk was released); distinct = distinct hash of the scenario"),
+        assumptions=COMMON + [SYNCTEST_ASSUMPTION],
+        parts=[dict(name="random", run="TestC04Random", checks=dict(quick=3000, thorough=15000), shards=dict(quick=1, thorough=16))],
+    ),
+    "C05": dict(
+        engine="subprop",
+        technique="property testing (rapid): ONCE/POLL rounds vs an independent matcher over the cache content, in a synctest bubble with gates around the walk",
+        level_text=("Generated cache contents (1-3 targets, origins, keyed paths, atomic containers), subscription path sets with globs at every position, both invalid origin combinations, target '*', "
+                    "ONCE or POLL with generated poll triggers, optional writers interleaved through gates. Against an unchanging cache each round's responses must be exactly the matching set with current values "
+                    "(duplicates allowed), followed by exactly one sync; ONCE then ends with success and nothing further; POLL repeats per trigger issued after the previous sync and ends with success on client EOF; "
+                    "invalid origin combinations end the RPC with an error; with writers, untouched matching leaves must be present and nothing that matches no path may be sent. Bounded exploration."),
+        level_note="independent matcher gn.Matches + completePath written from the documentation; in-memory stream double",
+        rule=("cases are scenarios of 8-30 steps; non-trivial = a completed round with a non-empty result whose subscription has a glob in a non-final position or targets '*'; distinct = distinct hash of the scenario"),
+        assumptions=COMMON + [SYNCTEST_ASSUMPTION],
+        parts=[dict(name="random", run="TestC05Random", checks=dict(quick=3000, thorough=15000), shards=dict(quick=1, thorough=16))],
+    ),
+    "C07": dict(
+        engine="subprop",
+        technique="property testing (rapid): trace monitor over every Send under generated ACL tables, plus convergence of the authorised view",
+        level_text=("Generated user x target permission tables (and users for whom per-call authorisation fails), all modes, single-target and '*' subscriptions, histories over 2-4 targets with deletes, Reset and Remove. "
+                    "Monitor: no response whose prefix target the caller's ACL denies ever passes Send; a denied single target ends the RPC with PermissionDenied and no Send; failed per-call authorisation ends it with "
+                    "Unauthenticated and no Send; the replayed view restricted to authorised targets converges to the cache (so dropping everything does not pass). Bounded exploration."),
+        level_note="ACL double implements subscribe.ACL/RPCACL from the table; user identity travels in the stream context",
+        rule=("cases are scenarios of 8-36 steps; non-trivial = a '*' subscription for which, after its sync, updates were fed both for a denied and for an allowed target; distinct = distinct hash of the scenario"),
+        assumptions=COMMON + [SYNCTEST_ASSUMPTION],
+        parts=[dict(name="random", run="TestC07Random", checks=dict(quick=3000, thorough=15000), shards=dict(quick=1, thorough=16))],
+    ),
+    "C08": dict(
+        engine="subprop",
+        technique="property testing (rapid) under virtual time: stall patterns via send credit; oracle = writer returns at quiescence, model of the coalescing backlog, exact virtual-time timeout",
+        level_text=("Generated stall patterns (never / transient / permanent) over 1-3 STREAM subscribers and update bursts with deletes. Every writer operation is launched in a goroutine and must have returned at the next "
+                    "quiescent point although subscribers are parked in Send and no virtual time has passed; free subscribers converge meanwhile; for stalled subscribers a model of the coalescing queue "
+                    "(first-insertion order, one entry per pending leaf with newest value and duplicates = coalesced updates, one per delete, the item already in flight not pending) must equal the delivered sequence on resume; "
+                    "a Send parked beyond the timeout ends that RPC with an error at exactly send start + timeout, a shorter stall never does. Bounded exploration."),
+        level_note="the backlog model starts at a drain (queue empty, sender idle) and needs the streaming filter relation (decided by C06); exported queue size only bounded from above",
+        rule=("cases are scenarios of 8-40 steps; non-trivial = while a subscriber was stalled a burst contained >=2 updates to one leaf (coalesced) and a delete; distinct = distinct hash of the scenario"),
+        assumptions=COMMON + [SYNCTEST_ASSUMPTION],
+        parts=[dict(name="random", run="TestC08Random", checks=dict(quick=3000, thorough=15000), shards=dict(quick=1, thorough=16))],
+    ),
     "C11": dict(
         engine="coalesceprop",
         technique=("exhaustive small-scope enumeration against a sequential queue model + gate-scheduled many-producers/one-consumer "
@@ -225,7 +309,8 @@ CHECKS = {
         rule=("cases are histories of 1-60 steps over 2-4 targets; non-trivial = a Reset or Remove of a target holding >=2 top-level subtrees while another target holds a leaf at one of the same paths; "
               "distinct = distinct hash of the scenario"),
         assumptions=COMMON + ["cache.Now is stubbed with a scenario-controlled clock"],
-        parts=[dict(name="random", run="TestC14Random", checks=dict(quick=5000, thorough=25000), shards=dict(quick=1, thorough=16))],
+        parts=[dict(name="random", run="TestC14Random", checks=dict(quick=5000, thorough=25000), shards=dict(quick=1, thorough=16)),
+               dict(name="subscribers", engine="subprop", run="TestC14Sub", checks=dict(quick=2000, thorough=10000), shards=dict(quick=1, thorough=8))],
     ),
     "C15": dict(
         engine="cacheprop",
